@@ -69,6 +69,16 @@ func (c14) Generate(r *engine.Rand, index int, tier string) *engine.Scenario {
 	total := uint64(r.Range(3, 4))*17556 + uint64(r.Intn(500))
 	if r.Chance(1, 2) {
 		genPPUEvents(r, sc, total, r.Range(1, 4), 0, r.Bool())
+	} else if r.Chance(1, 2) {
+		// the LCD is switched off inside the line on which LY equals LYC (anywhere in it) and on again
+		// later: the new frame starts at line 0 with nothing left over from the old one
+		line := int(lyc)
+		if line < 1 || line > 153 {
+			line = r.Range(1, 153)
+		}
+		at := uint64(1 + line*114 - 2 + r.Range(1, 113) + 17556*r.Intn(2))
+		sc.Events = append(sc.Events, engine.Event{At: at, K: "bus_w", A: 0xff40, V: r.Byte() &^ 0x80})
+		sc.Events = append(sc.Events, engine.Event{At: at + uint64(r.Range(1, 600)), K: "bus_w", A: 0xff40, V: r.Byte() | 0x80})
 	}
 	// STAT select writes while the LCD is off (any sources; the configured one is restored before
 	// the LCD is switched on again): nothing may be requested while the LCD is off
